@@ -1,4 +1,4 @@
-/- C16 helper lemmas, part 8: fault-free, cancel-free runs of ordered streaming — the re-orderer never sees the worker queues closed before the last block is released (no spurious link error), hence such a run is complete. -/
+/- C16 helper lemmas, part 8: fault-free, cancel-free runs (ordered streaming, the UTXO scan, unordered streaming) — the re-orderer never sees the worker queues closed before the last block is released (no spurious link error), hence such a run is complete. -/
 import BtcVerif.Proofs.StreamVariant
 namespace BtcVerif.Model.Stream
 open BtcVerif.Gen.Guards
@@ -418,6 +418,70 @@ theorem utxo_complete_thm {P : Params} (hP : P.lo ≤ P.hi) (hm : P.mode = .utxo
       exact absurd (hterm l s' hst) hl
   have hret := hnf.rt hm hfin
   exact ⟨hret, utxo_success_complete_thm hP hm hR hret⟩
+
+/-! ### unordered streaming without faults -/
+
+structure InvNFU (P : Params) (s : State) : Prop where
+  c0 : s.cancel0 = false
+  wk : ∀ (i : Nat) (w : Worker), s.workers[i]? = some w → w.ph ≠ .offerErr
+  ne : s.cph ≠ .gotErr ∧ s.errs = 0
+
+theorem invNFU_init {P : Params} : InvNFU P (init P) := by
+  refine ⟨by simp [init], ?_, by simp [init]⟩
+  intro i w hw
+  obtain ⟨_, rfl⟩ := initWorkers_get hw
+  simp only [initWorker]; split <;> (try split) <;> simp
+
+theorem invNFU_step {P : Params} (hP : P.lo ≤ P.hi) (hm : P.mode = .unordered) {s l s'}
+    (h1 : Inv1 P s) (h : InvNFU P s) (hst : Step P s l s') (hnf : faultOrCancel l = false) : InvNFU P s' := by
+  obtain ⟨_, hI⟩ := step_inv hst
+  obtain ⟨hc0, hwk, hne⟩ := h
+  have hun := (h1.un hm).1
+  cases hI with
+  | wLocal i w ph' l hw hl =>
+    refine ⟨by simpa [setW] using hc0, ?_, by simpa [setW] using hne⟩
+    simp only [setW]
+    refine pair_set (c := fun w => w.ph ≠ .offerErr) hwk ?_
+    cases hl <;> simp_all [faultOrCancel]
+  | wGiveC i w g hw hp hm' hc =>
+    refine ⟨by simpa [setW] using hc0, ?_, by simp_all [setW]⟩
+    simp only [setW]
+    refine pair_set (c := fun w => w.ph ≠ .offerErr) hwk ?_
+    simp only [advance]; split <;> simp
+  | wErrC i w hw hp hm' hc => exact absurd hp (hwk i w hw)
+  | wGiveR i w g hw hp hm' hr => exact absurd hm hm'
+  | wErrR i w hw hp hm' hr => exact absurd hm hm'
+  | closer hs hc hall => exact ⟨hc0, hwk, hne⟩
+  | rF0 hr | rF1ok hr | rF1err hr | rF1b hr | rF2err hr | rLoopCancel hr hc | rLoopClosed hr hc
+  | rRelSend hr h1' h2' | rRelErr hr h1' h2' | rSnd h hr hc | rSendErr hr hc | rF2ok hr | rF2nolink hr
+  | rS0 hr hc | rRelLoop hr hc1' hc2' => simp [hun] at hr
+  | cRetOk hc hm' hn => simp [hm] at hm'
+  | cRetErr hc hm' => simp [hm] at hm'
+  | cErr hc hm' => exact absurd hc hne.1
+  | envCancel hc => simp [faultOrCancel] at hnf
+  | cCall hc hm' | cSeeEnd hc hx | cDeliver h hc | cEnd hc hm' =>
+    exact ⟨hc0, hwk, by simp_all⟩
+
+theorem reachableNF_invU {P : Params} (hP : P.lo ≤ P.hi) (hm : P.mode = .unordered) {s}
+    (hr : ReachableNF P s) : InvNFU P s := by
+  induction hr with
+  | init => exact invNFU_init
+  | step hr' hst hnf ih => exact invNFU_step hP hm (reachable_inv1 hP hr'.reachable) ih hst hnf
+
+/-- a fault-free, cancel-free maximal run of unordered streaming delivers a permutation of the range, returns
+no error and signals the end of the stream -/
+theorem unordered_complete_nf_thm {P : Params} (hP : P.lo ≤ P.hi) (hm : P.mode = .unordered) (hp : 0 < P.p) {s}
+    (hr : ReachableNF P s) (hterm : ∀ l s', Step P s l s' → l = some .cancel) :
+    s.delivered.Perm (fullRange P) ∧ s.ended = true ∧ s.errs = 0 := by
+  have hR := hr.reachable
+  have hnf := reachableNF_invU hP hm hr
+  have hfin : s.cph = .finished := by
+    by_cases h : s.cph = .finished
+    · exact h
+    · obtain ⟨l, s', hst, hl⟩ := consumer_progress_thm hP hR h
+      exact absurd (hterm l s' hst) hl
+  have he : s.ended = true := (reachable_inv5 hP hR).fe (by simp [hm]) hfin
+  exact ⟨unordered_complete_thm hP hm hp hR he hnf.c0 hnf.ne.2, he, hnf.ne.2⟩
 
 end BtcVerif.Model.Stream
 
